@@ -1,6 +1,7 @@
 package climit
 
 import (
+	"github.com/PowerDNS/lightningstream/utils/verifhook"
 	"sync"
 	"time"
 
@@ -59,6 +60,7 @@ func (cl *ConcurrencyLimit) Acquire() *Token {
 	cl.log.Debug("Acquiring token")
 	metricWaiting.With(cl.labels).Inc()
 	t0 := time.Now()
+	verifhook.Yield("climit.acquire.recv", cl.name)
 	it := <-cl.ch
 	dt := time.Since(t0)
 
@@ -93,11 +95,13 @@ type Token struct {
 // It can safely be called more than once, even from different goroutines.
 // It returns how long the Token was held, or 0 if it had already been released.
 func (t *Token) Release() time.Duration {
+	verifhook.Yield("climit.release.lock", "")
 	t.mu.Lock()
 	defer t.mu.Unlock()
 	if t.released {
 		return 0
 	}
+	verifhook.Yield("climit.release.send", "")
 	t.cl.ch <- t.token
 	t.released = true
 	dt := time.Since(t.time)
